@@ -7,6 +7,8 @@ import (
 	"net/http"
 	"strings"
 	"time"
+
+	"verif.local/engine/vs"
 )
 
 // In-process stand-ins for the registry and the token service. No sockets: the
@@ -127,7 +129,6 @@ type fake struct {
 	events   []event
 	curSend  int
 	ntoken   int
-	choose   func(n int) int // asks the explorer for one of n alternatives
 }
 
 // reset prepares a replay of the recorded script.
@@ -144,7 +145,7 @@ func (f *fake) next() beh {
 	if f.pos >= f.limit {
 		return bOK
 	}
-	b := f.alphabet[f.choose(len(f.alphabet))]
+	b := f.alphabet[vs.Choose(len(f.alphabet), vs.KInput, "answer")]
 	f.script = append(f.script, b)
 	return b
 }
